@@ -608,6 +608,7 @@ theorem run_hops (cfg : Cfg) (hj : cfg.useJar = false) (hH : getList cfg.factory
       · exact hs
       · split
         · exact hs'
+        · exact hs
         · split
           · exact hs'
           · rename_i s2 hpr
@@ -745,6 +746,7 @@ theorem run_targets (cfg : Cfg) (adv : List Req → Reply) :
       · exact hs
       · split
         · exact hs'
+        · exact hs
         · split
           · exact hs'
           · split
